@@ -92,6 +92,8 @@ mod algo;
 mod issues;
 /// Pathsets manage paths for a specific src-dst pair.
 mod pathset;
+#[cfg(anapaya_scion_sdk_verif)]
+pub mod verif_pathset;
 /// Path reliability tracking
 pub(crate) mod reliability;
 /// Path fetcher traits and types.
